@@ -32,12 +32,13 @@ const (
 	C07EmptyDir     // childless containers inside a grouping used at 2-3 places, augmented at some instances only
 	C07SharedUses   // collision family: the clashing children of two or three augments come from uses of ONE grouping
 	C07MultiRev     // a module (or a submodule) loaded in two or three revisions; the older revisions carry augments of their own
+	C07DevGone      // an augment that collides or has a faulty body, and a deviate not-supported that removes its target afterwards
 	C07NumShapes    // number of shapes
 )
 
 // C07ShapeNames names the shapes (Distribution keys).
 var C07ShapeNames = [...]string{"mixed", "chain-worst", "chain-random", "uses-target", "choice-case", "rpc-notif", "collision",
-	"non-container", "missing", "body-error", "submodule", "body-variety", "implicit-case(outside-claim)", "sub-noprefix", "action-no-io", "childless-grouping-node", "collision-shared-grouping", "multi-revision"}
+	"non-container", "missing", "body-error", "submodule", "body-variety", "implicit-case(outside-claim)", "sub-noprefix", "action-no-io", "childless-grouping-node", "collision-shared-grouping", "multi-revision", "error-then-not-supported"}
 
 // Expectations for one augment statement.
 const (
@@ -86,6 +87,9 @@ type C07Aug struct {
 	SharedUses bool `json:"shareduses,omitempty"`
 	// OldRevision: the statement is written in a revision of a module or submodule that is not the latest loaded one.
 	OldRevision bool `json:"oldrev,omitempty"`
+	// DevRemoved: a deviation with deviate not-supported removes the target (or an ancestor of it)
+	// after the augment stage; what went wrong while merging must be reported all the same.
+	DevRemoved bool `json:"devremoved,omitempty"`
 }
 
 // C07Set is a generated set plus knowledge.
@@ -149,6 +153,13 @@ type c07g struct {
 	revs      []*Module
 	revGroups [][]*Module                    // revisions of one name, oldest first
 	pins      map[*Module]map[*Module]string // importer/includer -> imported revision -> pinned date
+	devs      []c07dev
+}
+
+// c07dev is one deviation with deviate not-supported.
+type c07dev struct {
+	tmod  *Module
+	steps []string
 }
 
 // c07full is the name goyang files a module under (name@latest revision statement).
@@ -224,6 +235,9 @@ func GenerateC07(r *rand.Rand, shape int) *C07Set {
 		}
 		if g.wantRev {
 			g.op(C07MultiRev)
+		}
+		if g.chance(0.08) {
+			g.op(C07DevGone)
 		}
 		if g.chance(0.03) {
 			g.op(C07ImplicitCase)
@@ -746,6 +760,108 @@ func (g *c07g) revOp() {
 			}
 		}
 	}
+}
+
+// devOp: an augment whose merge goes wrong (a child name the target has already, two augments with
+// one child name, an unknown grouping or type in the body) and a deviation with deviate
+// not-supported, written in the augmenting module, the target's module or a third one, that removes
+// the target or one of its ancestors. Deviations are applied after the augments: the node that holds
+// the record of what went wrong disappears, the report must not. One variant in ten is a control: a
+// clean augment whose nodes vanish with the target. The path to the target has containers and lists
+// only (deviation paths are looked up after implicit cases have been inserted).
+func (g *c07g) devOp() {
+	name := C07ShapeNames[C07DevGone]
+	plain := func(n *c07sn) bool {
+		for x := n; x != nil && x.parent != nil; x = x.parent {
+			if x.kw != "container" && x.kw != "list" {
+				return false
+			}
+		}
+		return true
+	}
+	k := g.r.Intn(10)
+	c, found := g.anyTarget(func(n *c07sn) bool { return plain(n) && (k > 3 || len(n.kids) > 0) })
+	if !found {
+		return
+	}
+	var regular []*Module
+	for _, m := range g.mods {
+		if !m.Sub {
+			regular = append(regular, m)
+		}
+	}
+	mark := func(a *c07aug) {
+		c.n.walk(func(x *c07sn) {
+			if x.aug == a.info.ID {
+				x.noTarget = true
+			}
+		})
+	}
+	w1 := g.writer(nil)
+	extra := func(a *Node, w *Module) {
+		if g.chance(0.4) {
+			g.leaf(a, g.augName(w))
+		}
+	}
+	var as []*c07aug
+	switch {
+	case k <= 3: // a child name the target has already
+		dup := c.n.kids[g.r.Intn(len(c.n.kids))].name
+		as = append(as, g.augOn(w1, c, name, g.pathMode(w1, c), func(a *Node, t *c07sn) {
+			extra(a, w1)
+			g.leaf(a, dup)
+			extra(a, w1)
+		}))
+	case k <= 5: // two augments, one new child name
+		g.seq++
+		dup := fmt.Sprintf("dup%d", g.seq)
+		for _, w := range []*Module{w1, g.writer(w1)} {
+			w := w
+			as = append(as, g.augOn(w, c, name, g.pathMode(w, c), func(a *Node, t *c07sn) {
+				extra(a, w)
+				g.leaf(a, dup)
+			}))
+		}
+	case k <= 8: // error in the body
+		as = append(as, g.augOn(w1, c, name, g.pathMode(w1, c), func(a *Node, t *c07sn) {
+			extra(a, w1)
+			switch g.r.Intn(4) {
+			case 0:
+				a.add("uses", "nosuchgrouping")
+			case 1:
+				cc := a.add("container", g.augName(w1))
+				g.leaf(cc, g.augName(w1))
+				cc.add("uses", "nosuchgrouping")
+			case 2:
+				a.add("leaf", g.augName(w1)).add("type", "nosuchtype")
+			default:
+				a.add("container", g.augName(w1)).add("leaf", g.augName(w1)).add("type", "nosuchtype")
+			}
+		}))
+	default: // control: a clean augment, its nodes vanish with the target
+		as = append(as, g.augOn(w1, c, name, g.pathMode(w1, c), g.body(w1, false)))
+	}
+	for _, a := range as {
+		mark(a)
+		a.info.DevRemoved = true
+	}
+	// the node that is removed: the target or an ancestor
+	gone := c.n
+	for gone.parent != nil && gone.parent.parent != nil && g.chance(0.4) {
+		gone = gone.parent
+	}
+	// where the deviation is written
+	dw := c07owner(w1)
+	switch g.r.Intn(3) {
+	case 0:
+		dw = c.mod
+	case 1:
+		dw = regular[g.r.Intn(len(regular))]
+	}
+	d := dw.Body.add("deviation", g.pathArg(dw, gone, 0))
+	d.add("deviate", "not-supported")
+	g.devs = append(g.devs, c07dev{tmod: c.mod, steps: gone.names()})
+	gone.noTarget = true
 }
 
 // emptyBase adds a grouping that holds childless containers (empty, presence, nested one level inside
@@ -1428,6 +1544,8 @@ func (g *c07g) op(shape int) {
 		g.sharedCollision()
 	case C07MultiRev:
 		g.revOp()
+	case C07DevGone:
+		g.devOp()
 	case C07Collision:
 		if g.chance(0.2) {
 			g.sharedCollision()
@@ -2083,6 +2201,19 @@ func (g *c07g) evaluate(s *C07Set) {
 		}
 		s.Augs = append(s.Augs, a.info)
 	}
+	// deviations with deviate not-supported run after the augment stage: the subtree goes
+	removed := map[*c07sn]bool{}
+	for _, d := range g.devs {
+		if t := c07resolve(forest[c07full(d.tmod)], d.steps); t != nil && t.parent != nil {
+			for i, k := range t.parent.kids {
+				if k == t {
+					t.parent.kids = append(t.parent.kids[:i:i], t.parent.kids[i+1:]...)
+					break
+				}
+			}
+			removed[t] = true
+		}
+	}
 	for _, r := range forest {
 		c07fix(r)
 	}
@@ -2093,6 +2224,11 @@ func (g *c07g) evaluate(s *C07Set) {
 		}
 		a.info.TargetPath = t.path()
 		if a.info.Expect != C07Apply {
+			continue
+		}
+		if t.flagged(func(x *c07sn) bool { return removed[x] }) {
+			// applied, then removed together with the target: nothing of it is left to look at
+			a.info.UniqueNames = false
 			continue
 		}
 		for _, k := range t.kids {
